@@ -215,7 +215,9 @@ func (e *Engine) registerFSIntrinsics() {
 		return r.callFunc(fr, f, args, nil)
 	}
 	notExist := func(r *Run) Value { return *r.global(r.eng.prog.ImportedPackage("io/fs").Var("ErrNotExist")) }
-	refused := func(r *Run) Value { return *r.global(r.eng.prog.ImportedPackage("github.com/ddddddO/gtree").Var("verifErrRefused")) }
+	refused := func(r *Run) Value {
+		return *r.global(r.eng.prog.ImportedPackage("github.com/ddddddO/gtree").Var("verifErrRefused"))
+	}
 	in["os.Stat"] = func(r *Run, fr *frame, a []Value) Value {
 		k := r.concreteInt(callH(r, fr, "vfsStat", a[0]), "vfsStat")
 		switch k {
@@ -274,20 +276,43 @@ func (e *Engine) registerVerifyIntrinsics() {
 		fsys := a[0].(Iface).V.(*dirFSObj)
 		fn := a[2]
 		gp := r.eng.prog.ImportedPackage("github.com/ddddddO/gtree")
-		list := r.callFunc(fr, gp.Func("vfsList"), []Value{fsys.dir}, nil).(SliceV)
+		// the root of the walk: "." is the directory of the FS itself; anything else is a path inside it, and fn then
+		// sees root for the top entry and root/<relative path> below it (fs.WalkDir joins with path.Join)
+		root := a[1].(StrV)
+		rootIsDot := root.isConcrete() && root.concrete() == "."
+		if root.isConcrete() && root.concrete() == "" {
+			panic(unsupported("fs.WalkDir with an empty root"))
+		}
+		top := fsys.dir
+		outer := func(p StrV) StrV { return p }
+		if !rootIsDot {
+			top = concatStr(concatStr(fsys.dir, strLit("/")), root)
+			outer = func(p StrV) StrV {
+				if p.isConcrete() && p.concrete() == "." {
+					return root
+				}
+				return concatStr(concatStr(root, strLit("/")), p)
+			}
+		}
+		list := r.callFunc(fr, gp.Func("vfsList"), []Value{top}, nil).(SliceV)
 		notExist := *r.global(r.eng.prog.ImportedPackage("io/fs").Var("ErrNotExist"))
 		skipAll := *r.global(r.eng.prog.ImportedPackage("io/fs").Var("SkipAll"))
 		skipDir := *r.global(r.eng.prog.ImportedPackage("io/fs").Var("SkipDir"))
 		if len(list.Data) == 1 && list.Data[0].(StrV).isConcrete() && list.Data[0].(StrV).concrete() == "!file" {
-			// the root of the walk is a regular file: fs.Stat(fsys, ".") fails with ENOTDIR and WalkDir hands that error to fn
-			res := r.call(fr, fn, []Value{strLit("."), Iface{}, *r.global(gp.Var("verifErrRefused"))}).(Iface)
+			// the root of the walk is a regular file. Walking "." of DirFS(file): fs.Stat(fsys, ".") fails with ENOTDIR and
+			// WalkDir hands that error to fn. Walking a file inside the FS: it is visited as a single entry.
+			var werr Value = Iface{}
+			if rootIsDot {
+				werr = *r.global(gp.Var("verifErrRefused"))
+			}
+			res := r.call(fr, fn, []Value{outer(strLit(".")), Iface{}, werr}).(Iface)
 			if res.T != nil && (r.equal(nil, res, skipAll).C || r.equal(nil, res, skipDir).C) {
 				return Iface{}
 			}
 			return res
 		}
 		if list.Nil || len(list.Data) == 0 {
-			res := r.call(fr, fn, []Value{strLit("."), Iface{}, notExist}).(Iface)
+			res := r.call(fr, fn, []Value{outer(strLit(".")), Iface{}, notExist}).(Iface)
 			if res.T != nil && (r.equal(nil, res, skipAll).C || r.equal(nil, res, skipDir).C) {
 				return Iface{}
 			}
@@ -321,7 +346,7 @@ func (e *Engine) registerVerifyIntrinsics() {
 			if skipped[i] {
 				continue
 			}
-			res := r.call(fr, fn, []Value{p, Iface{}, Iface{}}).(Iface)
+			res := r.call(fr, fn, []Value{outer(p.(StrV)), Iface{}, Iface{}}).(Iface)
 			if res.T != nil {
 				if r.equal(nil, res, skipAll).C {
 					return Iface{}
